@@ -11,7 +11,7 @@ use jbonsai::Engine;
 use jlabel::Label;
 use std::sync::Arc;
 
-const NFIELDS: usize = 15;
+const NFIELDS: usize = 17;
 
 /// one single-field metadata mutation; returns the field's name
 fn mutate(v: &mut Voice, field: usize, rng: &mut Rng) -> &'static str {
@@ -73,6 +73,26 @@ fn mutate(v: &mut Voice, field: usize, rng: &mut Rng) -> &'static str {
         13 => {
             v.stream_models[s].metadata.option.push("ALPHA=0.1".into());
             "option"
+        }
+        15 => {
+            // the same option strings, one of them twice (the list is a list, not a set)
+            let o = &mut v.stream_models[0].metadata.option;
+            if o.is_empty() {
+                o.push("ALPHA=0.25".into());
+            } else {
+                let dup = o[0].clone();
+                o.push(dup);
+            }
+            "option (duplicated entry)"
+        }
+        16 => {
+            // the same option strings in another order (with two ALPHA entries the order decides)
+            let o = &mut v.stream_models[0].metadata.option;
+            o.reverse();
+            if o.len() >= 2 && o.iter().eq(o.iter().rev()) {
+                o.swap(0, 1); // (a palindrome: swap two neighbours instead)
+            }
+            "option (reordered)"
         }
         _ => {
             // the last stream only (a comparison that stops one stream early misses it)
@@ -392,6 +412,15 @@ pub fn run(ctx: &mut Ctx) {
                 Ok(v) => Arc::new(v),
                 Err(_) => bundled.clone(),
             }
+        };
+        // (for the reordering the common voice itself needs at least two option strings)
+        let base: Arc<Voice> = if field == 16 && base.stream_models[0].metadata.option.len() < 2 {
+            let mut b = (*base).clone();
+            b.stream_models[0].metadata.option.push("ALPHA=0.25".into());
+            b.stream_models[0].metadata.option.push("ALPHA=0.5".into());
+            Arc::new(b)
+        } else {
+            base
         };
         let mut odd = (*base).clone();
         let name = mutate(&mut odd, field, rng);
